@@ -67,6 +67,9 @@ func kPtrNN(s string) kind { return kind{k: "ptr", s: s, nn: true} }
 // errPairs: path of an error value -> the pointer it is paired with (err != nil <=> ptr == nil)
 var errPairs = map[string]val{}
 
+// okPairs: path of the bool of a (pointer, ok) result pair -> the pointer (ok <=> pointer != nil)
+var okPairs = map[string]val{}
+
 type field struct {
 	goName, lean string
 	kd           kind
@@ -83,7 +86,7 @@ var schemas = map[string][]field{
 	"SessionParameters": {{"Redundancy", "Redundancy", kEnum}, {"Persistence", "Persistence", kEnum}, {"AckType", "AckType", kEnum}},
 	"FlushRequest":      {{"NetworkInstance", "NetworkInstance", kind{k: "oneof", s: "FlushNI"}}, {"Override", "Override", kPtr("Unit")}, {"Id", "Id", kPtr("Uint128")}},
 	"OpResult":          {{"ID", "ID", kNat}},
-	"AFTOperation":      {{"Id", "Id", kNat}, {"ElectionId", "ElectionId", kPtr("Uint128")}, {"Op", "Op", kEnum}},
+	"AFTOperation":      {{"Id", "Id", kNat}, {"ElectionId", "ElectionId", kPtr("Uint128")}, {"Op", "Op", kEnum}, {"NetworkInstance", "NetworkInstance", kStr}},
 	"GetRequestG":       {{"NetworkInstance", "NetworkInstance", kind{k: "oneof", s: "GetNI"}}, {"Aft", "Aft", kEnum}},
 	"CandRIB":           {{"Afts", "Afts", kPtr("CandAfts")}},
 	"CandAfts": {{"NextHop", "NextHop", kind{k: "list", s: "CandNH", elemNN: true, keyed: true}}, {"NextHopGroup", "NextHopGroup", kind{k: "list", s: "CandNHG", elemNN: true, keyed: true}},
@@ -1237,6 +1240,12 @@ func trCall(c *ast.CallExpr, en env) []val {
 				}
 				out = append(out, en.vars[r])
 			}
+			if o.okOf {
+				p := out[0]
+				okv := val{lean: "(" + atom(p.lean) + ".isSome)", kd: kBool, path: "okof:" + p.path}
+				okPairs[okv.path] = p
+				out[1] = okv
+			}
 			if o.errOf {
 				p, e := out[0], out[1]
 				ev := val{lean: "(errOf " + atom(p.lean) + " " + atom(e.lean) + ")", kd: kind{k: "status"}, path: "errof:" + p.path}
@@ -1490,6 +1499,25 @@ func trCond(e ast.Expr, en env, kt, kf cont) string {
 			}
 		}
 	}
+	if id, ok := e.(*ast.Ident); ok {
+		if x, ok := en.vars[id.Name]; ok {
+			if p, ok := okPairs[x.path]; ok {
+				// the ok of a (pointer, ok) pair: true exactly when the pointer is non-nil
+				if en.isNil[p.path] {
+					return kf(en)
+				}
+				if _, b := en.bound[p.path]; b {
+					return kt(en)
+				}
+				n := fresh(lastName(p.path))
+				e1 := en.clone()
+				e1.isNil[p.path] = true
+				e2 := en.clone()
+				e2.bound[p.path] = n
+				return fmt.Sprintf("(match %s with\n| none => %s\n| some %s => %s)", p.lean, kf(e1), n, kt(e2))
+			}
+		}
+	}
 	var prop string
 	if b, ok := e.(*ast.BinaryExpr); ok {
 		prop = trProp(b, en)
@@ -1685,6 +1713,13 @@ func trStmts(list []ast.Stmt, en env, k cont) string {
 			e := trRetVal(v.Value, "err", en)
 			e1 := absorb(en).clone()
 			e1.effects = append(e1.effects, "(Eff.sendErr "+atom(e)+")")
+			lets := takeLets()
+			return wrapLets(lets, next(e1))
+		}
+		if cur != nil && cur.errChan && render(v.Chan) == "resCh" {
+			x := trRetVal(v.Value, "mresp", en)
+			e1 := absorb(en).clone()
+			e1.effects = append(e1.effects, "(Eff.send "+atom(x)+")")
 			lets := takeLets()
 			return wrapLets(lets, next(e1))
 		}
